@@ -550,6 +550,17 @@ namespace jsoncons {
             // This implementation uses the psuedo-code given in
             // http://tools.ietf.org/html/rfc3986#section-5.2.2
 
+            if (reference.is_absolute() && reference.has_authority() && reference.has_path())
+            {
+                // T.path = remove_dot_segments(R.path)
+                std::string rpath = remove_dot_segments(std::string(reference.encoded_path()));
+                if (rpath != reference.encoded_path())
+                {
+                    return uri(uri_encoded_part, reference.scheme(), reference.encoded_userinfo(), reference.host(), reference.port(), 
+                        rpath, reference.encoded_query(), reference.encoded_fragment());
+                }
+            }
+
             if (reference.is_absolute() && !reference.is_opaque()) 
             {
                 return reference;
